@@ -487,3 +487,82 @@ def u_cell_ratio(ctx):
                     exits(eng, outs, ensure=ensure, raises=raises, replay="C15.cell_ratio")
             obs += eng.obligations
     return obs
+
+
+# ------------------------------------------------------------------------------------------------ the decorators over call histories
+@unit("C15", "utils:terminal_size_cached/histories")
+def u_ts_cached_histories(ctx):
+    """Every history of up to three calls of a function under @terminal_size_cached (terminal size arbitrary at each call, the wrapped
+    function returning or raising, an invalidation anywhere): a value returned was computed at the terminal size in force now, after
+    the last invalidation.  The decorator's own body is executed to build the closures, so the names of its local state do not matter;
+    the history length is bounded (3), the values are not - this unit can refute, the per-call unit above is what proves."""
+    import ast as _ast
+    import itertools as _it
+    obs = []
+    outer = ctx.fn(UTILS, "terminal_size_cached")
+    body = [st_ for st_ in eng_body(outer) if not isinstance(st_, _ast.Return)]
+    for plan in _it.product(("call", "inval+call"), ("call", "inval+call"), ("call", "inval+call")):
+        eng = ctx.engine(f"C15/terminal_size_cached.history[{','.join(plan)}]", "C15")
+        eng.default_replay = "C15.ts_cached"
+        st = State()
+        st.ghost.update(computed=[], now=None, epoch=0)
+        ts = [(z3.Int(f"tw{i}"), z3.Int(f"th{i}")) for i in range(3)]
+        for a_, b_ in ts:
+            st.pc += [a_ >= 1, b_ >= 1]
+        eng.genv["get_terminal_size"] = Fn(lambda e, s, a, k: [(Rec("terminal_size", {"columns": s.ghost["now"][0], "lines": s.ghost["now"][1]}), s)])
+        eng.genv["RLock"] = Fn(lambda e, s, a, k: [(e.fork(s).new("lock", {}) if False else Opaque("lock"), s)])
+        eng.genv["wraps"] = Fn(lambda e, s, a, k: [(Fn(lambda e2, s2, a2, k2: [(a2[0], s2)]), s)])
+        attrs = {}
+
+        def setattr_(e, s, a, k):
+            attrs[a[1]] = a[2]
+            return [(None, s)]
+        eng.genv["setattr"] = Fn(setattr_)
+        eng.methods[("lock", "__enter__")] = lambda e, s, recv, a, k: [(recv, s)]
+
+        def func(e, s, a, k):
+            s = e.fork(s)
+            v = e.sym_int("computed_value")
+            e.raise_(ExcVal("Boom"), e.fork(s))
+            s.ghost["computed"] = s.ghost["computed"] + [(v, s.ghost["now"], s.ghost["epoch"])]
+            return [(v, s)]
+        st.env.update(func=Fn(func))
+        eng.number_loops(outer)
+        states = [s for kind, _, s in eng.run(body, st) if kind == "normal"]
+        wrapper_name = next(n.name for n in outer.body if isinstance(n, _ast.FunctionDef) and n.name.endswith("wrapper"))
+        for step, what in enumerate(plan):
+            nxt = []
+            for s in states:
+                s = s.fork()
+                if what.startswith("inval"):
+                    inv_fn = attrs.get("_invalidate_terminal_size_cache")
+                    if inv_fn is None:
+                        raise Unsupported("the decorator did not publish _invalidate_terminal_size_cache")
+                    outs_i = eng.call(inv_fn, (), {}, s)
+                    if len(outs_i) != 1:
+                        raise Unsupported("invalidate() forks")
+                    s = outs_i[0][1].fork()
+                    s.ghost["epoch"] = s.ghost["epoch"] + 1
+                s.ghost["now"] = ts[step]
+                eng.rstack.append([])
+                rets = eng.call(s.lookup(wrapper_name), (), {}, s)
+                raised = eng.rstack.pop()
+                for exc, s2 in raised:
+                    eng.oblige(f"call{step + 1}:only-the-wrapped-function's-own-error-escapes", s2, exc.cls == "Boom", kind="raise")
+                    nxt.append(s2)
+                for v, s2 in rets:
+                    now, ep = s2.ghost["now"], s2.ghost["epoch"]
+                    ok = Or(*[And(Eq(v, cv), Eq(cts[0], now[0]), Eq(cts[1], now[1]), cep == ep) for cv, cts, cep in s2.ghost["computed"]]) if s2.ghost["computed"] else False
+                    eng.oblige(f"call{step + 1}:the-value-returned-was-computed-at-the-terminal-size-in-force-now(after-the-last-invalidation)", s2, ok, kind="post")
+                    nxt.append(s2)
+            states = nxt
+        obs += eng.obligations
+    return obs
+
+
+def eng_body(fnode):
+    import ast as _ast
+    b = list(fnode.body)
+    if b and isinstance(b[0], _ast.Expr) and isinstance(getattr(b[0], "value", None), _ast.Constant) and isinstance(b[0].value.value, str):
+        b = b[1:]
+    return b
